@@ -212,6 +212,19 @@ pub fn run(out: &mut Out, seed: u64, tier: &str) {
             for g in GEOMETRIES.iter() { mols.push(distort(&centre(z, 1, g, 1.0), 0.03, &mut rng)); }
         }
     }
+    // three-coordinate centres at exactly idealised geometries (as typed in or drawn on a grid, not distorted): T-shaped with two
+    // neighbours exactly opposite, planar, pyramidal, three perpendicular bonds — as they are and in a random orientation. Which
+    // terms a centre gets is decided by the bond graph and the types, not by where the atoms happen to sit
+    for z in [6usize, 15, 33, 51, 83, 7, 5, 13, 14, 16, 17, 35, 53, 26, 46, 57] {
+        for zl in [1usize, 9, 17] {
+            for g in ["tshape", "trigonal", "pyramidal", "orthopyramid"] {
+                if tier != "thorough" && (z + zl + g.len() + seed as usize) % 2 == 1 && g != "tshape" { continue; }
+                let c = centre(z, zl, g, 1.0);
+                mols.push(moved(&c, &random_rotation(&mut rng), [rng.range(-3., 3.), rng.range(-3., 3.), rng.range(-3., 3.)]));
+                mols.push(c);
+            }
+        }
+    }
     for _ in 0..n_random { let m = random_mol(&mut rng); let m = if rng.chance(0.5) { distort(&m, rng.range(0.0, 0.2), &mut rng) } else { m }; mols.push(m); }
     // far-apart fragments and one long chain: "exactly one pair term for every unordered pair" has no distance limit
     for sep in [13.0, 27.0, 60.0, 500.0, 2.0e4] {
